@@ -293,7 +293,14 @@ def run_shard(spec, rec):
     repo = os.environ.get("VERIF_REPO", "/repo")
     R = random.Random(spec["seed"])
     from ..worker import guard, CaseTimeout
-    for how, n in (("subprocess", spec["subprocess"]), ("inprocess", spec["inprocess"])):
+    try:
+        from jsonpath_rfc9535 import cli as _cli
+        inproc_ok = callable(getattr(_cli, "main", None))
+    except Exception:  # noqa: BLE001
+        inproc_ok = False
+    if not inproc_ok:
+        rec.note("jsonpath_rfc9535.cli.main not importable: in-process breadth runs skipped, subprocess runs decide")
+    for how, n in (("subprocess", spec["subprocess"]), ("inprocess", spec["inprocess"] if inproc_ok else 0)):
         for _ in range(n):
             try:
                 with guard(90):
